@@ -53,4 +53,57 @@ Proof.
   destruct e as [k|k]; cbn [step]; intros ->; reflexivity.
 Qed.
 
+(* Corollaries naming the sub-claims of C09 one by one. *)
+
+(* a step requests repeating exactly when it fires a Special mapping, and then
+   with that mapping's keys, delay and interval *)
+Lemma step_repeating_iff L s e ks d i :
+  snd (fst (step is_action L s e)) = RRRepeating ks d i <->
+  exists k m, e = Pressed k /\ fired L s k = Some m /\ m_repeat m = RSpecial ks d i.
+Proof.
+  rewrite step_repeat. split.
+  - destruct e as [k|k]; cbn [expected_repeat].
+    + destruct (mem k (inp s)); [discriminate|].
+      destruct (fired L s k) as [m|] eqn:F; [|discriminate].
+      destruct (m_repeat m) as [| |ks' d' i'] eqn:R; try discriminate.
+      intros H; injection H as -> -> ->. exists k, m. repeat split; assumption.
+    + destruct (mem k (inp s)); discriminate.
+  - intros (k & m & -> & F & R). cbn [expected_repeat].
+    assert (Hin : mem k (inp s) = false).
+    { unfold fired in F. destruct (mem k (inp s)); [discriminate|reflexivity]. }
+    rewrite Hin, F, R. reflexivity.
+Qed.
+
+(* the release of any key the mapper considers held cancels repeating: a repeat
+   never survives the release of its trigger *)
+Lemma step_release_cancels L s k :
+  mem k (inp s) = true ->
+  snd (fst (step is_action L s (Released k))) = RRDisabled.
+Proof. intros H. rewrite step_repeat. cbn [expected_repeat]. rewrite H. reflexivity. Qed.
+
+(* a press the mapper acts on that fires no mapping, or a Normal/Disabled one,
+   cancels repeating, whatever other mappings of the layout are Special *)
+Lemma step_press_non_special_cancels L s k :
+  mem k (inp s) = false ->
+  (forall m ks d i, fired L s k = Some m -> m_repeat m <> RSpecial ks d i) ->
+  snd (fst (step is_action L s (Pressed k))) = RRDisabled.
+Proof.
+  intros H N. rewrite step_repeat. cbn [expected_repeat]. rewrite H.
+  destruct (fired L s k) as [m|] eqn:F; [|reflexivity].
+  destruct (m_repeat m) as [| |ks d i] eqn:R; try reflexivity.
+  exfalso. exact (N m ks d i eq_refl R).
+Qed.
+
+(* NoChange is returned for ignored events only *)
+Lemma step_nochange_iff L s e :
+  snd (fst (step is_action L s e)) = RRNoChange <->
+  (match e with Pressed k => mem k (inp s) = true | Released k => mem k (inp s) = false end).
+Proof.
+  rewrite step_repeat. destruct e as [k|k]; cbn [expected_repeat].
+  - destruct (mem k (inp s)); [tauto|].
+    split; [|discriminate].
+    destruct (fired L s k) as [m|]; [destruct (m_repeat m)|]; discriminate.
+  - destruct (mem k (inp s)); split; try discriminate; reflexivity.
+Qed.
+
 End S.
